@@ -91,6 +91,18 @@ def check(rep, tier, seed):
                 bad.append((f"localtz {l}  (TZ=Europe/Budapest, order {k})", a,
                             "a DateTime<Local> is decoded to another instant or offset than the one written"))
     rep.coverage["local_time_zone_history"] = {"calls": len(order1) + len(order2) + 2 * len(inst), "zone": "Europe/Budapest"}
+    # compressed blocks: a history of writes at alternating levels in ONE process; each frame must be the frame a fresh
+    # thread writes for the same block and level (the harness compares them: `sinks`)
+    clines = []
+    for k in range(60 if tier == "quick" else 600):
+        blk = bytes(rng.getrandbits(8) for _ in range(rng.choice([0, 1, 50, 300]))) + bytes(rng.choice([0, 500, 20000]))
+        clines.append(f"rt {rng.choice([0, 9, 1, 6, 0, 9])} {blk.hex() or '-'} 00")
+    cpth = os.path.join(wd, "compress.cases")
+    C.write_lines(cpth, clines)
+    for l, a in zip(clines, C.run_lines(harness, "compress", cpth)):
+        if "sinks=true" not in a or "decoded=true" not in a:
+            bad.append((l[:200], a, "a compressed frame depends on what the thread compressed before"))
+    rep.coverage["compressed_write_history"] = len(clines)
     # reference tracking: "string and reference numbering always restarts with each call" - graph encodes and decodes
     # (harness/src/graph.rs: store_ref_or_object / try_read_ref) issued twice, shuffled, in ONE process, where freed
     # objects' addresses are reused by later calls; every answer must equal the answer of the same call alone
